@@ -270,6 +270,25 @@ pub struct Report {
     pub out: Vec<String>,
 }
 
+/// Keeps evidence files small: long strings and long arrays inside a sample are cut, with a
+/// marker saying how much was left out.
+pub fn compact_sample(v: &Value) -> Value {
+    match v {
+        Value::String(s) if s.chars().count() > 240 => {
+            let head: String = s.chars().take(200).collect();
+            Value::String(format!("{head}… [{} characters in all]", s.chars().count()))
+        }
+        Value::Array(a) if a.len() > 48 => {
+            let mut out: Vec<Value> = a.iter().take(40).map(compact_sample).collect();
+            out.push(Value::String(format!("… [{} elements in all]", a.len())));
+            Value::Array(out)
+        }
+        Value::Array(a) => Value::Array(a.iter().map(compact_sample).collect()),
+        Value::Object(o) => Value::Object(o.iter().map(|(k, x)| (k.clone(), compact_sample(x))).collect()),
+        other => other.clone(),
+    }
+}
+
 pub fn digest_of<T: Serialize>(v: &T) -> u64 {
     let bytes = serde_json::to_vec(v).unwrap_or_default();
     let mut h = std::collections::hash_map::DefaultHasher::new();
@@ -791,7 +810,7 @@ impl Report {
         let mut samples = vec![];
         for s in &self.subs {
             for v in s.samples.iter().take(3) {
-                samples.push(json!({"check": s.name, "case": v}));
+                samples.push(json!({"check": s.name, "case": compact_sample(v)}));
             }
         }
         let subs: Vec<Value> = self
